@@ -22,6 +22,7 @@ type Clause struct {
 	Line   int
 	File   string
 	Stream bool
+	Target string
 }
 
 type ModTarget struct {
@@ -44,6 +45,8 @@ type FuncContract struct {
 	Props      []string
 	Requires   []*Clause
 	Ensures    []*Clause
+	AtCall     []*Clause // assertions before calls of a named callee (Clause.Target = callee name)
+	AtSend     []*Clause // assertions before every channel send in the function
 	Assumes    []*Clause // assumed at call sites, not checked against the body (listed as assumptions)
 	Invariants []*Clause
 	Effects    []*Clause // crash invariants
@@ -370,6 +373,23 @@ func (cs *ContractSet) parseFile(path, pkgPath string) error {
 					return err
 				}
 				cur.Ensures = append(cur.Ensures, c)
+			case "atcall":
+				fs := strings.SplitN(rest, " ", 2)
+				if len(fs) < 2 {
+					return errf("expected: atcall <callee> label: expr")
+				}
+				c, err := mkClause("atcall", strings.TrimSpace(fs[1]))
+				if err != nil {
+					return err
+				}
+				c.Target = fs[0]
+				cur.AtCall = append(cur.AtCall, c)
+			case "atsend":
+				c, err := mkClause("atsend", rest)
+				if err != nil {
+					return err
+				}
+				cur.AtSend = append(cur.AtSend, c)
 			case "assumes":
 				c, err := mkClause("assumes", rest)
 				if err != nil {
